@@ -193,6 +193,17 @@ func checkAssertsC28(p *Prog, r *Result, pkg *packages.Package, rel string, fd *
 			r.OK("R28a", key, ta.Pos(), "inside a type-switch arm on the same value")
 			return true
 		}
+		// (i-b) past the true edge of a predicate that makes the very test: `ok := func(x T) bool { v, ok := x.(W); return ok && … }`
+		if blk != nil && underEdges(g, blk, func(e *FEdge) bool {
+			c, ok := ast.Unparen(e.Cond).(*ast.CallExpr)
+			if !ok || !e.Pol || e.Tag != nil || len(c.Args) != 1 || exprString(c.Args[0]) != subject {
+				return false
+			}
+			return predicateAsserts(info, fd, c, want)
+		}) {
+			r.OK("R28a", key, ta.Pos(), "past the true answer of a predicate whose every true return is conjoined with the comma-ok result of the same assertion on its parameter")
+			return true
+		}
 		// (ii) construction invariant: o.parent.(WriteEnviron) under o.funcScope, decided by C27's R27c
 		if fv := selectorField(info, ta.X); fv != nil && fv.Name() == "parent" && typeName(want) == "WriteEnviron" {
 			sub := newResult(r.Prop, r.prog)
@@ -2838,4 +2849,76 @@ func wholeWordChecked(info *types.Info, fd *ast.FuncDecl, k types.Object) bool {
 		return true
 	})
 	return found
+}
+
+// predicateAsserts: the call is to a local closure (or a function of the package) with one parameter whose body makes a
+// comma-ok assertion of that parameter to the wanted type, and every return is the constant false or has that ok among
+// its conjuncts.
+func predicateAsserts(info *types.Info, fd *ast.FuncDecl, c *ast.CallExpr, want types.Type) bool {
+	var body *ast.BlockStmt
+	var params *ast.FieldList
+	if id, ok := ast.Unparen(c.Fun).(*ast.Ident); ok {
+		obj := info.ObjectOf(id)
+		ast.Inspect(fd.Body, func(n ast.Node) bool {
+			as, ok := n.(*ast.AssignStmt)
+			if !ok || len(as.Lhs) != 1 || len(as.Rhs) != 1 {
+				return true
+			}
+			if lid, ok := as.Lhs[0].(*ast.Ident); ok && info.ObjectOf(lid) == obj {
+				if fl, ok := ast.Unparen(as.Rhs[0]).(*ast.FuncLit); ok {
+					body, params = fl.Body, fl.Type.Params
+				}
+			}
+			return true
+		})
+	}
+	if body == nil || params == nil || len(params.List) != 1 || len(params.List[0].Names) != 1 {
+		return false
+	}
+	param := info.ObjectOf(params.List[0].Names[0])
+	var okObj types.Object
+	ast.Inspect(body, func(n ast.Node) bool {
+		as, ok := n.(*ast.AssignStmt)
+		if !ok || len(as.Lhs) != 2 || len(as.Rhs) != 1 {
+			return true
+		}
+		ta, ok := ast.Unparen(as.Rhs[0]).(*ast.TypeAssertExpr)
+		if !ok || ta.Type == nil || !types.Identical(info.TypeOf(ta.Type), want) {
+			return true
+		}
+		if id, ok := ast.Unparen(ta.X).(*ast.Ident); ok && info.ObjectOf(id) == param {
+			if okID, ok := as.Lhs[1].(*ast.Ident); ok {
+				okObj = info.ObjectOf(okID)
+			}
+		}
+		return true
+	})
+	if okObj == nil {
+		return false
+	}
+	all, any := true, false
+	ast.Inspect(body, func(n ast.Node) bool {
+		if _, isLit := n.(*ast.FuncLit); isLit {
+			return false
+		}
+		rs, ok := n.(*ast.ReturnStmt)
+		if !ok || len(rs.Results) != 1 {
+			return true
+		}
+		any = true
+		if tv, ok := info.Types[rs.Results[0]]; ok && tv.Value != nil && tv.Value.ExactString() == "false" {
+			return true
+		}
+		has := false
+		for _, cj := range conjuncts(rs.Results[0]) {
+			if id, ok := ast.Unparen(cj).(*ast.Ident); ok && info.ObjectOf(id) == okObj {
+				has = true
+			}
+		}
+		if !has {
+			all = false
+		}
+		return true
+	})
+	return all && any
 }
